@@ -152,7 +152,13 @@ func runScenario(rc *recorder, seed int64, maxSize int, withLimiter bool) {
 		MaxSize:      maxSize,
 		WaitInterval: time.Duration(100+r.Intn(500)) * time.Microsecond,
 		MaxDuration:  time.Duration(1+r.Intn(3)) * time.Millisecond,
-		Shard:        func(arg interface{}) interface{} { return shardOf[arg.(string)] },
+		// the two shards are distinct values that PRINT alike (int64(7) and "7"): grouping must go by the value
+		Shard: func(arg interface{}) interface{} {
+			if shardOf[arg.(string)] == "s1" {
+				return int64(7)
+			}
+			return "7"
+		},
 	}
 	f.Many = func(ctx context.Context, args []interface{}) ([]interface{}, error) {
 		gid := gate.GoID()
